@@ -528,6 +528,9 @@ func (sr *specRun) call(fn *ssa.Function, in *ssa.Call, as []sval, depth int, ca
 			if as[0].isConst() && as[0].c.Kind() == constant.String {
 				return one(constv(constant.MakeInt64(int64(len(constant.StringVal(as[0].c))))))
 			}
+			if v, ok := sr.cfg.Paths["len("+as[0].String()+")"]; ok { // a length the caller fixed
+				return one(v)
+			}
 		}
 	}
 	if callee != nil {
